@@ -195,3 +195,12 @@ package keeper
 //@   loop L1 invariant forall j int :: 0 <= j && j < len(list) ==> list[j] == rawget(Shard, itkey(j)) && itkey(j) == keyof(Shard, list[j].Id)
 //@   loop L1 invariant forall j int :: 0 <= j && j < len(list) ==> contains(list, list[j])
 //@   loop L1 decreases [C02.getall.shard.term] itlen() - itpos()
+
+// GetOrderShardBySP: the first listed shard of the order that exists and is assigned to sp (a fresh copy), or nil
+//@ func (Keeper) GetOrderShardBySP(ctx, order, sp) (shard)
+//@   requires order != nil
+//@   modifies nothing
+//@   ensures [C10.shardbysp.found] shard != nil ==> has(Shard, shard.Id) && *shard == Shard[shard.Id] && shard.Sp == sp && contains(order.Shards, shard.Id)
+//@   ensures [C10.shardbysp.none] shard == nil ==> forall j int :: 0 <= j && j < len(order.Shards) ==> !(has(Shard, order.Shards[j]) && Shard[order.Shards[j]].Sp == sp)
+//@   loop L1 invariant -1 <= rangeindex && rangeindex < len(order0.Shards)
+//@   loop L1 invariant forall j int :: 0 <= j && j <= rangeindex ==> !(has(Shard, order0.Shards[j]) && Shard[order0.Shards[j]].Sp == sp0)
